@@ -45,16 +45,16 @@ func posdelivVariants(tier string) []vsched.Variant {
 		out = append(out, vsched.Variant{Name: c.name(), Bound: bound, Shards: shards, BudgetS: budget})
 	}
 	if tier == "quick" {
-		add(posdelivCfg{mode: "fresh", pre: 1, npub: 2}, 1, 2, 40)
-		add(posdelivCfg{mode: "recover", pre: 2, from: 1, npub: 2}, 1, 2, 40)
-		add(posdelivCfg{mode: "recover", pre: 2, from: 0, npub: 2, filter: "client"}, 1, 2, 40)
-		add(posdelivCfg{mode: "recover", pre: 2, from: 1, npub: 2, filter: "server"}, 1, 2, 40)
-		add(posdelivCfg{mode: "recover", pre: 1, from: 1, npub: 2, faults: true}, 1, 2, 40)
-		add(posdelivCfg{mode: "fresh", pre: 1, npub: 2, faults: true, filter: "client"}, 1, 2, 40)
-		add(posdelivCfg{mode: "posonly", pre: 1, npub: 2, faults: true}, 1, 1, 40)
-		add(posdelivCfg{mode: "server", pre: 1, npub: 2}, 1, 1, 40)
-		add(posdelivCfg{mode: "recover", pre: 2, from: 1, npub: 1, remove: true}, 1, 4, 40)
-		add(posdelivCfg{mode: "recover", pre: 2, from: 2, npub: 2, staleEp: true}, 0, 1, 40)
+		add(posdelivCfg{mode: "fresh", pre: 1, npub: 2}, 1, 1, 75)
+		add(posdelivCfg{mode: "recover", pre: 2, from: 1, npub: 2}, 1, 1, 75)
+		add(posdelivCfg{mode: "recover", pre: 2, from: 0, npub: 2, filter: "client"}, 1, 1, 75)
+		add(posdelivCfg{mode: "recover", pre: 2, from: 1, npub: 2, filter: "server"}, 1, 1, 75)
+		add(posdelivCfg{mode: "recover", pre: 1, from: 1, npub: 2, faults: true}, 1, 1, 75)
+		add(posdelivCfg{mode: "fresh", pre: 1, npub: 2, faults: true, filter: "client"}, 1, 1, 75)
+		add(posdelivCfg{mode: "posonly", pre: 1, npub: 2, faults: true}, 1, 1, 75)
+		add(posdelivCfg{mode: "server", pre: 1, npub: 2}, 1, 1, 75)
+		add(posdelivCfg{mode: "recover", pre: 2, from: 1, npub: 1, remove: true}, 1, 1, 75)
+		add(posdelivCfg{mode: "recover", pre: 2, from: 2, npub: 2, staleEp: true}, 0, 1, 75)
 		return out
 	}
 	for _, mode := range []string{"fresh", "recover", "posonly", "server"} {
